@@ -2,6 +2,8 @@ package checks
 
 import (
 	"crypto/x509"
+	"crypto/x509/pkix"
+	"encoding/asn1"
 	"errors"
 	"fmt"
 	"math/big"
@@ -169,15 +171,27 @@ func runC05(r *mc.Run) {
 		dp := c.Choose("root.dps", len(dps))
 		ph := c.Choose("pck.header", 7)
 		opt := c.Choose("options", 3)
-		reason := []int{0, 1, 8, 6, 10}[c.Choose("entry.reason", 5)] // none, keyCompromise, removeFromCRL, certificateHold, aACompromise
+		rk := c.Choose("entry.reason", 9)
+		reason := []int{0, 1, 8, 6, 10, 0, 0, 0, 0}[rk] // none, keyCompromise, removeFromCRL, certificateHold, aACompromise, then entry extensions
+		var entryExts []pkix.Extension
+		switch rk {
+		case 5: // an extension nobody knows, marked critical
+			entryExts = []pkix.Extension{{Id: asn1.ObjectIdentifier{1, 3, 6, 1, 4, 1, 99999, 1}, Critical: true, Value: []byte{0x05, 0x00}}}
+		case 6: // ... not critical
+			entryExts = []pkix.Extension{{Id: asn1.ObjectIdentifier{1, 3, 6, 1, 4, 1, 99999, 1}, Value: []byte{0x05, 0x00}}}
+		case 7: // invalidityDate
+			entryExts = []pkix.Extension{{Id: asn1.ObjectIdentifier{2, 5, 29, 24}, Value: []byte{0x18, 0x0f, '2', '0', '2', '8', '0', '1', '0', '1', '0', '0', '0', '0', '0', '0', 'Z'}}}
+		case 8: // critical reasonCode
+			entryExts = []pkix.Extension{{Id: asn1.ObjectIdentifier{2, 5, 29, 21}, Critical: true, Value: []byte{0x0a, 0x01, 0x01}}}
+		}
 		// revocation date of the entries relative to the verification time: a listed certificate is revoked whenever its entry is dated
 		revAt := []time.Time{{}, world.T0, world.T0.Add(time.Second), world.T0.AddDate(0, 0, 14)}[c.Choose("entry.date", 4)]
 		id := "crl/" + c.ID()
 		if !r.Want(id) {
 			return
 		}
-		pckCrl := world.MakeCRL(world.CRLSpec{Issuer: pckSigners[psg].issuer, Signer: pckSigners[psg].key, Revoked: pckSets[ps].list, Reason: reason, RevokedAt: revAt})
-		rootCrl := world.MakeCRL(world.CRLSpec{Issuer: rootSigners[rsg].issuer, Signer: rootSigners[rsg].key, Revoked: rootSets[rs].list, Reason: reason, RevokedAt: revAt})
+		pckCrl := world.MakeCRL(world.CRLSpec{Issuer: pckSigners[psg].issuer, Signer: pckSigners[psg].key, Revoked: pckSets[ps].list, Reason: reason, RevokedAt: revAt, EntryExts: entryExts})
+		rootCrl := world.MakeCRL(world.CRLSpec{Issuer: rootSigners[rsg].issuer, Signer: rootSigners[rsg].key, Revoked: rootSets[rs].list, Reason: reason, RevokedAt: revAt, EntryExts: entryExts})
 		fPck := world.MakeCRL(world.CRLSpec{Issuer: F.Inter, Signer: F.InterKey})
 		fRoot := world.MakeCRL(world.CRLSpec{Issuer: F.Root, Signer: F.RootKey})
 		serve := func(kind string, own, other, f []byte, hdr map[string][]string) world.Response {
